@@ -479,7 +479,11 @@ def _val_case(c, rng, seed, tier, index, cwd):
             c.viol("values_row_wrong", tool + ":covered_base_value", detail(row=i, input_row=[ct.trunc(x, 80) for x in rows[i]], base=s + bad[0], stored=repr(bad[1]), printed=bad[2], line=ct.trunc(ln, 300)))
             break
     if fills:
-        c.notes.append("bigwigvaluesoverbed prints uncovered bases as %s (declared don't-care, not demanded)" % "/".join(sorted(fills)[:4]))
+        c.notes.append("bigwigvaluesoverbed prints uncovered bases as %s (which constant is printed is a declared don't-care)" % "/".join(sorted(fills)[:4]))
+        # Which fill is used is not demanded -- but it has to be ONE fill: a base without data must not be
+        # reported with different values in different places (e.g. a value left over from another region).
+        if len(fills) > 1:
+            c.viol("uncovered_bases_reported_with_varying_values", tool, detail(distinct_printed_values=sorted(fills)[:8], rows=len(rows)))
 
 
 # ------------------------------------------------------------------- legs --
